@@ -205,6 +205,10 @@ func DumpNode(n schema.Node) *Node {
 		d.Mandatory = v.Mandatory()
 		d.Def = v.DefaultCase()
 		d.HasDef = d.Def != ""
+	case schema.OpdOption, schema.OpdArgument:
+		if t := n.Type(); t != nil {
+			d.Type = t.Name().Local
+		}
 	}
 	for _, m := range n.Musts() {
 		d.Musts = append(d.Musts, Must{Text: condText(m.ErrMsg), Ns: m.Namespace})
@@ -264,11 +268,60 @@ func SortChildren(d *Node) {
 	})
 }
 
-// Dump converts a whole model set: the root is a node of kind "tree".
+// pseudo makes a structural node (rpc, input, output, notification) out of a dumped tree.
+func pseudo(kind, name, ns string, t *Node) *Node {
+	t.Kind, t.Name, t.Ns = kind, name, ns
+	return t
+}
+
+// Dump converts a whole model set: the root is a node of kind "tree"; besides the data tree it holds one node
+// of kind "rpc" (children "input" and "output") per rpc and one of kind "notification" per notification, so
+// that every tree the ModelSet exposes is covered.  The per-module trees (Modules()) must consist of the very
+// nodes of the merged data tree; a deviation is reported in the root's description.
 func Dump(ms schema.ModelSet) *Node {
 	d := DumpNode(ms)
 	d.Kind, d.Name = "tree", ""
+	for ns, rpcs := range ms.Rpcs() {
+		for name, r := range rpcs {
+			rn := pseudo("rpc", name, ns, DumpNode(schema.Node(nil2tree(r.Input()))))
+			rn.Children = []*Node{
+				pseudo("input", "input", ns, DumpNode(nil2tree(r.Input()))),
+				pseudo("output", "output", ns, DumpNode(nil2tree(r.Output()))),
+			}
+			d.Children = append(d.Children, rn)
+		}
+	}
+	for ns, nots := range ms.Notifications() {
+		for name, n := range nots {
+			d.Children = append(d.Children, pseudo("notification", name, ns, DumpNode(nil2tree(n.Schema()))))
+		}
+	}
+	SortChildren(d)
+	// per-module trees
+	owned := map[string]bool{}
+	for mname, m := range ms.Modules() {
+		for _, c := range m.Children() {
+			owned[c.Name()] = true
+			if ms.Child(c.Name()) != c {
+				d.Desc += " [module-tree: " + mname + "/" + c.Name() + " is not the node of the merged tree]"
+			}
+		}
+	}
+	for _, c := range ms.Children() {
+		if !owned[c.Name()] {
+			d.Desc += " [module-tree: " + c.Name() + " is in no module's tree]"
+		}
+	}
 	return d
+}
+
+var emptyTree, _ = schema.NewTree(nil)
+
+func nil2tree(t schema.Tree) schema.Node {
+	if t == nil {
+		return emptyTree
+	}
+	return t
 }
 
 // Canon normalises a dump that came from elsewhere (the TLA+ side writes sets
